@@ -53,12 +53,20 @@ def run(tier, seed, work, replay):
     hist = [R, Rb, R, A2, R, Rb, A30, R, A2, Rb]
     for k in range(1, len(hist) + 1):
         systematic.append({"steps": hist[:k] + [S, L, X], "origin": "save-at-prefix-%d" % k})
+    # a save that is cut short (process killed, disk full) leaves the last completed save in place
+    SC = {"op": "save_crash"}
+    systematic.append({"steps": [R, Rb, R, S] + [R, Rb] * 6 + [SC, L, R, S, L], "origin": "save-cut-short"})
+    systematic.append({"steps": [R] * 4 + [S, L] + [Rb, R] * 8 + [SC, L, X, S, L], "origin": "save-cut-short-after-restart"})
     n, depth = (30, 25) if tier == "quick" else (400, 40)
     cases = systematic + simulate(work, n, depth, seed)
     cp = work.path("cases.ndjson")
     E.write_ndjson(cp, cases)
     rp, _ = E.run_harness(rbin, "C20rec", work, cases=cp, events=work.path("events-rec.ndjson"), cwd=os.path.join(E.REPO, "eventmon/eventrecorder"))
     rev = E.read_ndjson(rp)
+    cut = [e for e in rev if e["ev"] == "save_crash"]
+    cov["saves_cut_short"] = sum(1 for e in cut if not e.get("saved", True))
+    if cut and not cov["saves_cut_short"]:
+        raise E.Inconclusive("recorder: no save was actually cut short by the file-size limit (dead driver)")
     evs = rev + [dict(sev[0], i=len(rev))]
     allp = work.path("events-all.ndjson")
     E.write_ndjson(allp, evs)
